@@ -152,6 +152,13 @@ func Run(c Case, r *pbt.Rec) (err error) {
 		e, gerr := db.GetCF(kv.ColumnFamily(cf), key)
 		wantPresent := mv != nil && !mv.deleted
 		if gerr != nil && !errors.Is(gerr, utils.ErrKeyNotFound) {
+			if f1c && mv != nil && trk.Tainted(eng.BaseKey(cf, key)) {
+				// the stale copy that wins under the listed finding may point into a value-log
+				// file GC has meanwhile removed: same root cause, counted as excluded
+				r.Excluded(1)
+				r.Label("tainted-read-error")
+				return nil
+			}
 			return pbt.Failf("get-error", "step %d: GetCF(cf=%d,%q) unexpected error: %v", step, cf, key, gerr)
 		}
 		gotPresent := gerr == nil && e != nil
